@@ -50,7 +50,7 @@ var devKinds = []string{
 	"win-zero", "win-max", "insert-new-reuse-last-finished", "insert-new-dup", "insert-new-dup-badrev", "insert-new-lower-badrev", "insert-new-negative-badrev", "insert-new-dup-badmethod", "insert-new-lower", "insert-new-negative", "insert-frame-unknown-id", "big-chunk", "insert-data-after",
 }
 
-func genConversation(rng *rand.Rand, nStreams int, maxSize int) *conversation {
+func genConversation(rng *rand.Rand, nStreams int, maxSize int, rev tunnelpb.ProtocolRevision) *conversation {
 	c := &conversation{}
 	shapes := []string{"Unary", "ClientStream", "ServerStream", "Bidi"}
 	// stream 0: "fin" finishes at once; stream 1: bystander "by"; then victims
@@ -84,7 +84,7 @@ func genConversation(rng *rand.Rand, nStreams int, maxSize int) *conversation {
 		id += 1 + int64(rng.Intn(3))/2
 	}
 	for _, s := range c.streams {
-		s.base = append(s.base, fNew(s.id, "verif.Svc/"+s.method, s.tag, tunnelpb.ProtocolRevision_REVISION_ONE, 65536))
+		s.base = append(s.base, fNew(s.id, "verif.Svc/"+s.method, s.tag, rev, 65536))
 		for k, sz := range s.sizes {
 			s.base = append(s.base, msgFramesC2S(s.id, wrapBytes(GenPayload(s.tag, dirReq, k, sz)), 16384)...)
 		}
@@ -457,16 +457,22 @@ func init() {
 	listers["C09"] = func(tier string, seed int64) []Case {
 		var out []Case
 		rng := rand.New(rand.NewSource(seed*7907 + 9))
-		nconv := 6
+		nconv, nrev1 := 8, 6
 		stride := 2
 		if tier == "thorough" {
-			nconv = 80
+			nconv, nrev1 = 100, 80
 			stride = 1
 		}
 		for ci := 0; ci < nconv; ci++ {
 			cseed := rng.Int63()
 			nstreams := 1 + ci%3
-			conv := genConversation(rand.New(rand.NewSource(cseed)), nstreams, 19000)
+			// the last conversations open their streams with protocol revision zero (no flow
+			// control on those streams, on a tunnel that negotiated revision one)
+			rev0 := 0
+			if ci >= nrev1 {
+				rev0 = 1
+			}
+			conv := genConversation(rand.New(rand.NewSource(cseed)), nstreams, 19000, tunnelpb.ProtocolRevision(1-rev0))
 			nf := len(conv.frames)
 			for di, kind := range devKinds {
 				off := (ci*31 + di*3) % stride
@@ -475,7 +481,7 @@ func init() {
 						continue
 					}
 					dir := []string{"forward", "reverse"}[(p+di)%2]
-					out = append(out, Case{Family: "rawconv", Seed: cseed, Cfg: WorldCfg{Dir: dir}, P: map[string]int{"pos": p, "nstreams": nstreams, "burst": (p / stride) % 2}, S: map[string]string{"dev": kind}})
+					out = append(out, Case{Family: "rawconv", Seed: cseed, Cfg: WorldCfg{Dir: dir}, P: map[string]int{"pos": p, "nstreams": nstreams, "burst": (p / stride) % 2, "rev0": rev0}, S: map[string]string{"dev": kind}})
 				}
 			}
 		}
@@ -485,14 +491,14 @@ func init() {
 			nmulti = 60000
 		}
 		for i := 0; i < nmulti; i++ {
-			out = append(out, Case{Family: "rawconv", Seed: rng.Int63(), Cfg: WorldCfg{Dir: []string{"forward", "reverse"}[i%2]}, P: map[string]int{"pos": -1, "nstreams": 1 + i%3, "multi": 2 + i%3, "burst": i % 2}, S: map[string]string{"dev": "multi"}})
+			out = append(out, Case{Family: "rawconv", Seed: rng.Int63(), Cfg: WorldCfg{Dir: []string{"forward", "reverse"}[i%2]}, P: map[string]int{"pos": -1, "nstreams": 1 + i%3, "multi": 2 + i%3, "burst": i % 2, "rev0": (i / 2) % 2 * (i / 4) % 2}, S: map[string]string{"dev": "multi"}})
 		}
 		return out
 	}
 }
 
 func famRawConv(w *World, c *Case, rng *rand.Rand) {
-	conv := genConversation(rand.New(rand.NewSource(c.Seed)), c.p("nstreams", 2), 19000)
+	conv := genConversation(rand.New(rand.NewSource(c.Seed)), c.p("nstreams", 2), 19000, tunnelpb.ProtocolRevision(1-c.p("rev0", 0)))
 	frames := conv.frames
 	desc := "none"
 	kind := c.s("dev", "none")
